@@ -10,10 +10,15 @@ Property oracle (from the property text, independent of the model): no timeout; 
 import os, sys, json, tempfile, shutil, glob, time, concurrent.futures as cf
 import vlib, e2e
 import shutdown_lib as L
+import remote_session_lib as RS
 
 THEOREMS = ['C09_no_stuck', 'C09_impl_repaired', 'C09_no_stuck_impl', 'C09_step_decreases', 'C09_terminates',
             'C09_exit_nonzero', 'C09_clean_exit_zero', 'C09_refuted_unfixed', 'C09_holds_below_capacity', 'C09_run_sound',
-            'C09_sync_layer_step_decreases', 'C09_sync_layer_terminates']
+            'C09_sync_layer_step_decreases', 'C09_sync_layer_terminates',
+            # remote placement (Model/RemoteSession.v)
+            'C09_remote_step_decreases', 'C09_remote_terminates', 'C09_remote_run_sound', 'C09_remote_plan_run_sound',
+            'C09_remote_needs_resp_ok', 'C09_remote_needs_covered', 'C09_remote_exit_refuted']
+REMOTE_C14 = ['C14_remote_delivery', 'C14_remote_pipeline']     # stated in Props/C14.v over the same model
 
 WATCHDOG = 30.0          # seconds; a run normally takes 0.01 s (local) to 0.4 s (both remote)
 WATCHDOG_SLOW = 90.0     # runs that really move tens of MiB through the debug-build AES link (2 - 15 s)
@@ -250,8 +255,19 @@ def check(run, only=None):
                          'non-trivial = a fault is planned; distinct by scenario')
     binary = vlib.build_impl()
     vlib.regen_facts(binary)
-    run.check_proofs('C09', THEOREMS, extra_targets=['theories/Extract/Ex_shutdown.vo'])
+    run.check_proofs('C09', THEOREMS, extra_targets=['theories/Extract/Ex_shutdown.vo', 'theories/Extract/Ex_remote.vo',
+                                                     'theories/Props/C14.vo'])
+    try:
+        ass = vlib.print_assumptions('C14', REMOTE_C14)
+        bad = {t: a for t, a in ass.items() if a}
+        missing = [t for t in REMOTE_C14 if t not in ass]
+        if bad or missing:
+            run.broke('proof', 'C14-remote', 'axioms: %r missing: %r' % (bad, missing))
+        run.theorems.update({t: 'closed' for t in REMOTE_C14 if t in ass and not ass[t]})
+    except vlib.BrokenTie as e:
+        run.broke('proof', 'C14-remote', str(e))
     jbin = vlib.build_judge('shutdown')
+    jremote = vlib.build_judge('remote')
     fixed = impl_is_fixed(binary)
     run.extra['impl_has_repair'] = fixed
     tmp = tempfile.mkdtemp(prefix='c09_', dir=vlib.CACHE)
@@ -260,6 +276,10 @@ def check(run, only=None):
         scs = []
         for path in sorted(glob.glob(os.path.join(vlib.VERIF, 'corpus', 'C09', '*.json'))):
             scs.append(json.load(open(path))['scenario'])
+        if only is not None and only.get('side'):
+            # a scenario of the remote-session family (Model/RemoteSession.v, tools/remote_session_lib.py)
+            RS.family(run, binary, jremote, tmp, only=only)
+            return run.finish(search=None)
         if only is not None:
             scs = [only]
         else:
@@ -293,6 +313,10 @@ def check(run, only=None):
             obs = run_one(binary, tmp, scs[i])
             if record(run, scs[i], obs, models[i]):
                 nfail += 1
+        # (6) one boss <-> one remote doer session against the extracted Model/RemoteSession.v: kill / stdin closed /
+        #     cut at every position, error replies, doer dying during launch; the fake ssh logs the doer's exit status
+        if only is None and nfail < MAX_FAIL:
+            RS.family(run, binary, jremote, tmp)
     finally:
         shutil.rmtree(tmp, ignore_errors=True)
     run.extra['e2e_wall_s'] = round(time.time() - t0, 1)
